@@ -114,6 +114,9 @@ func (e *Engine) invoke(fr *Frame, s *State, recv *Iface, m *types.Func, args []
 		if h, ok := stubMethods[n.Obj().Name()+"."+m.Name()]; ok {
 			return h(e, fr, s, recv, args, pos)
 		}
+		if strings.HasPrefix(n.Obj().Name(), "reader:") && m.Name() == "Read" {
+			return e.readerRead(fr, s, recv, args[0].(*SliceV), pos)
+		}
 		if strings.HasPrefix(n.Obj().Name(), "extern:") {
 			panic(unsupported("method %s on external object %s at %s", m.Name(), n.Obj().Name(), pos))
 		}
@@ -628,4 +631,32 @@ func bigFromString(s string) *big.Int {
 		panic(unsupported("bad integer literal %q", s))
 	}
 	return v
+}
+
+// readerRead models one direct Read call on a harness reader: any count 0..len(p) may be returned (with or
+// without an error), and exactly that many leading bytes of p are overwritten with fresh input bytes.
+func (e *Engine) readerRead(fr *Frame, s *State, r *Iface, buf *SliceV, pos string) Value {
+	if !buf.Len.IsConst() {
+		panic(unsupported("Read with symbolic buffer length"))
+	}
+	ln := int(buf.Len.Val.Int64())
+	name := r.Dyn.(*types.Named).Obj().Name()
+	e.H.readerCalls = append(e.H.readerCalls, readerCall{reader: name, n: ln, pos: pos, pc: s.pc, direct: true})
+	id := len(e.H.readerCalls)
+	n := e.st.Sym(fmt.Sprintf("rd%d_n", id), BV(e.intw))
+	e.H.assumes = append(e.H.assumes, e.st.BVUle(n, e.st.BVu(uint64(ln), e.intw)))
+	fail := e.st.Sym(fmt.Sprintf("rd%d_fail", id), BoolSort)
+	secret := strings.HasPrefix(name, "reader:secret")
+	for k := 0; k < ln; k++ {
+		old := e.load(s, e.ptrAdd(buf.P, k), leafT, pos, fr)
+		var nv *Term
+		if secret {
+			nv = e.st.SecretSym(fmt.Sprintf("rd%d_b%d", id, k), BV(8))
+		} else {
+			nv = e.st.Sym(fmt.Sprintf("rd%d_b%d", id, k), BV(8))
+		}
+		g := e.st.BVUlt(e.st.BVu(uint64(k), e.intw), n)
+		e.storeVal(s, e.ptrAdd(buf.P, k), e.mergeValue(g, nv, old), leafT, pos, fr)
+	}
+	return Tuple{n, &Iface{Dyn: e.stubType("errstub"), Nil: e.st.Not(fail)}}
 }
